@@ -143,7 +143,7 @@ def run_into(v, pid, tier, seed):
     w = workdir(tag)
     tuftool = vlib.build_tuftool()
     g = model_check(w, tag, 6 if tier == "quick" else 8)
-    num, steps, per = (60, 7, 11) if tier == "quick" else (700, 8, 300)
+    num, steps, per = (60, 7, 11) if tier == "quick" else (400, 8, 150)
     fams = generate(w, tag, seed, num, steps)
     cases = [c for fam in fams for c in fam[:per]]
     cp, out = os.path.join(w, "cases.ndjson"), os.path.join(w, "out.ndjson")
